@@ -6,7 +6,25 @@ every implementation trace.
 A case is {'proto', 'max', 'members': [payload..], 'order': [member index..], 'errs': [member
 index..]}: the batch `members` is received, then the request members deliver their results in
 `order` (members listed in `errs` deliver an RPCError instead of a value).  A single request /
-notification is {'proto', 'max', 'single': payload, 'err': bool}."""
+notification is {'proto', 'max', 'single': payload, 'err': bool}.
+
+Layers: connection (`receive_message` + `send_result`, this file), serving session with gated
+handlers (harness/c02_session.py), serving session on the virtual clock with a processing
+timeout and a send buffer that fills up and drains (harness/c02_backpressure.py).
+
+What the oracle takes from where.  From the property text: the counting clauses (exactly one
+response / batch response, only when every member has its result, one entry per request member
+matched by id, one error entry per invalid member, nothing for notifications), "the response to a
+request whose handler delivered carries that result unless it is too large", and the size clause.
+The size clause is read at both levels at which it is satisfiable (see props/C02.json
+level_note): (i) a response *object* - the thing that has an id - larger than the maximum is
+replaced by an error object with the same id; (ii) a batch response in which nothing was replaced
+and which has no error entries for invalid members is not larger than the maximum, and more
+generally the results *kept* in a batch response, taken as a batch of their own, are not.  The
+bytes between / around batch entries are not fixed by the text: they are measured from the code
+(facts `join_sep_len`, `bracket_len`), never hard-coded.  The member classifier is the request
+grammar of JSON-RPC 1.0 / 2.0 / Loose *as this library reads it* - in particular a member with
+`"id": null` is a notification (JSON-RPC 2.0 itself would call it a request with a null id)."""
 import itertools
 import json
 import logging
@@ -61,8 +79,8 @@ def member_of_token(n):
 
 # ------------------------------------------------------------------ decoding what was sent
 def decode_entry(e):
-    """('r', member, id) for a handler-supplied result, ('E', id) for any other error entry,
-    ('?', ..) for anything else"""
+    """('r', member, id) for a handler-supplied result, ('E', id, code) for any other error
+    entry (the code only for diagnostics), ('?', ..) for anything else"""
     if not isinstance(e, dict) or 'id' not in e:
         return ('?', repr(e)[:40])
     rid = e['id']
@@ -71,7 +89,7 @@ def decode_entry(e):
         if isinstance(err, dict) and isinstance(err.get('code'), int) \
                 and err.get('message') == f'm{err["code"]}' and member_of_token(err['code']) is not None:
             return ('r', member_of_token(err['code']), rid)
-        return ('E', rid)
+        return ('E', rid, err.get('code') if isinstance(err, dict) else None)
     if 'result' in e:
         t = value_token(e['result'])
         if t is not None and member_of_token(t) is not None:
@@ -98,7 +116,7 @@ def normalise_model(tok):
         items = [x for x in body[:-1].split(',') if x]
         items = [('E@' + x.split('@', 1)[1]) if x[0] in 'eb' else x for x in items]
         return pre + '[' + ','.join(items) + ']'
-    if tok.startswith('b@'):
+    if tok.startswith('b@') or tok.startswith('e@'):
         return 'E@' + tok[2:]
     return tok
 
@@ -110,7 +128,7 @@ def run_impl_batch(jr, case):
     conn = jr.JSONRPCConnection(proto)
     conn.max_response_size = case['max']
     raw = json.dumps(case['members']).encode()
-    rec = {'raised': None, 'calls': [], 'lens': [], 'exc': None, 'items': None}
+    rec = {'raised': None, 'calls': [], 'lens': [], 'exc': None, 'items': None, 'rawlens': []}
     try:
         items = conn.receive_message(raw)
     except jr.ProtocolError as e:
@@ -149,6 +167,7 @@ def run_impl_batch(jr, case):
             rec['exc'] = type(e).__name__
             break
         rec['calls'].append(None if out is None else [decode_entry(x) for x in json.loads(out)])
+        rec['rawlens'].append(None if out is None else len(out))
     return rec
 
 
@@ -178,35 +197,65 @@ def run_impl_single(jr, case):
 
 
 # ------------------------------------------------------------------ the property oracle
+# bytes between two entries / around a batch, and what the code adds per entry to its running
+# size: measured from the code under test (tools/facts/c02.py), set by `_init`
+WIRE = {'sep': 2, 'br': 2, 'inc': 2}
+
+
+def set_wire(facts):
+    """take the wire parameters from the regenerated facts (never hard-coded in a clause)"""
+    if not isinstance(facts, dict):
+        return
+    for k, f in (('sep', 'join_sep_len'), ('br', 'bracket_len'), ('inc', 'size_increment')):
+        v = facts.get(f)
+        if isinstance(v, int) and not isinstance(v, bool) and v >= 0:
+            WIRE[k] = v
+
+
+def batch_len(lens):
+    """encoded length of a batch whose entries have the given lengths"""
+    return sum(lens) + WIRE['sep'] * (len(lens) - 1) + WIRE['br']
+
+
 def batch_oracle(case, rec):
     """None or (key, why).  From the property text: exactly one batch response, only when every
     request member has its result, one entry per request member (matched by id) plus one error
-    entry per invalid member; only notifications -> nothing; a response larger than the maximum
-    is replaced by an error with the same id."""
+    entry per invalid member; only notifications -> nothing; the entry of a member whose handler
+    delivered is that result unless too large; size clause at entry and at batch level (module
+    docstring).  `case['busy']`: members whose handler did not deliver before the processing
+    timeout - any well-formed entry under the member's id is their one response.
+    `rec['sent']`, if present, lists every batch message that left: (number of request members
+    that had their result when it was written - 1, entries, length in bytes)."""
     proto = case.get('inforce', case['proto'])
     kinds = [classify_member(proto, p) for p in case['members']]
     reqs = [i for i, k in enumerate(kinds) if k[0] == 'req']
     invalid = [i for i, k in enumerate(kinds) if k[0] == 'invalid']
     notifs = [i for i, k in enumerate(kinds) if k[0] == 'notif']
+    busy = set(case.get('busy', ()))
     if rec['exc']:
         return 'c02:unexpected-exception:' + rec['exc'], 'escaped receive_message / send_result'
-    sent = []     # (when, entries)
-    if rec['raised'] is not None:
-        if rec['raised'] == 'no-message':
-            return 'c02:error-without-reply', 'ProtocolError without a message for the peer'
-        sent.append(('receive', rec['raised']))
-    for j, out in enumerate(rec['calls']):
-        if out is not None:
-            sent.append((j, out))
+    if 'sent' in rec:
+        sent = list(rec['sent'])
+    else:
+        sent = []     # (when, entries, bytes)
+        if rec['raised'] is not None:
+            if rec['raised'] == 'no-message':
+                return 'c02:error-without-reply', 'ProtocolError without a message for the peer'
+            sent.append(('receive', rec['raised'], None))
+        rawlens = rec.get('rawlens') or [None] * len(rec['calls'])
+        for j, out in enumerate(rec['calls']):
+            if out is not None:
+                sent.append((j, out, rawlens[j]))
+    extra = rec.get('extra', 0)
     want = 1 if (reqs or invalid) else 0
-    if len(sent) != want:
-        if not reqs and invalid and notifs and not sent:
+    if len(sent) + extra != want:
+        if not reqs and invalid and notifs and not sent and not extra:
             return ('c02:notif-invalid-no-reply',
                     f'batch of notifications and {len(invalid)} invalid member(s): no response at all')
-        return 'c02:reply-count', f'{len(sent)} batch responses sent, {want} called for'
+        return 'c02:reply-count', f'{len(sent) + extra} batch responses sent, {want} called for'
     if not want:
         return None
-    when, entries = sent[0]
+    when, entries, rawlen = sent[0]
     if reqs and when != len(reqs) - 1:
         return 'c02:reply-too-early', f'batch response sent at {when}, before every member had its result'
     if any(e[0] == '?' for e in entries):
@@ -215,33 +264,49 @@ def batch_oracle(case, rec):
         return 'c02:entry-count', f'{len(entries)} entries for {len(reqs)} requests + {len(invalid)} invalid'
     # one entry per request member, matched by id; the rest are the invalid members' errors
     pool = list(entries)
-    real_lens = []
-    for pos, m in enumerate(case['order']):
+    real, replaced = [], []
+    lens = dict(zip(case['order'], rec['lens']))
+    for m in case['order']:
         rid = kinds[m][1]
         hit = [e for e in pool if e[0] == 'r' and e[1] == m]
         if hit:
             e = hit[0]
             if not same_json(e[2], rid):
                 return 'c02:wrong-id', f'member {m} (id {rid!r}) answered under id {e[2]!r}'
-            real_lens.append(rec['lens'][pos])
+            real.append(m)
         else:
             hit = [e for e in pool if e[0] == 'E' and same_json(e[1], rid)]
             if not hit:
                 return 'c02:missing-entry', f'no entry under id {rid!r} for member {m}'
             e = hit[0]
-            if case['max'] == 0:
-                return 'c02:replaced-without-limit', f'member {m} got an error entry although max_response_size is 0'
+            if m not in busy:
+                if case['max'] == 0:
+                    return ('c02:replaced-without-limit',
+                            f'member {m} delivered its result but got an error entry (code '
+                            f'{e[2] if len(e) > 2 else "?"}) although max_response_size is 0')
+                replaced.append(m)
         pool.remove(e)
     if any(e[0] != 'E' for e in pool) or len(pool) != len(invalid):
         return 'c02:invalid-member-errors', f'left-over entries {pool} for {len(invalid)} invalid members'
     mx = case['max']
     if mx > 0:
-        total = sum(l + 2 for l in rec['lens'])
-        nreal = len(real_lens)
-        if total <= mx and nreal != len(reqs) and not invalid:
-            return 'c02:replaced-though-within-limit', f'results need {total} <= {mx} bytes but entries were replaced'
-        if sum(l + 2 for l in real_lens) > mx:
-            return 'c02:oversize-not-replaced', f'real results kept need {sum(l + 2 for l in real_lens)} > {mx} bytes'
+        # (i) a response object larger than the maximum is replaced
+        for m in real:
+            if lens[m] > mx:
+                return ('c02:oversize-not-replaced',
+                        f'the response to member {m} is {lens[m]} > {mx} bytes but was sent')
+        # (ii) the results kept, as a batch of their own, are within the maximum
+        if real and batch_len([lens[m] for m in real]) > mx:
+            return ('c02:oversize-not-replaced',
+                    f'real results kept need {batch_len([lens[m] for m in real])} > {mx} bytes')
+        # (ii) nothing replaced, no invalid member: the bytes that left are within the maximum
+        if not invalid and not busy and len(real) == len(reqs) and rawlen is not None and rawlen > mx:
+            return 'c02:batch-over-limit', f'batch response of {rawlen} > {mx} bytes, nothing replaced'
+        # a batch that fits as a whole has nothing replaced
+        if not invalid and not busy and replaced and batch_len([lens[m] for m in case['order']]) <= mx:
+            return ('c02:replaced-though-within-limit',
+                    f'the whole batch needs {batch_len([lens[m] for m in case["order"]])} <= {mx} '
+                    f'bytes but entries of members {replaced} were replaced')
     return None
 
 
@@ -252,22 +317,26 @@ def same_json(a, b):
 
 
 def single_oracle(case, rec):
+    """None or (key, why): exactly one response under the request's id (the handler's result
+    unless too large; any response under the id if the handler did not deliver in time,
+    `case['busy']`), nothing for a notification.  What an *invalid* single message gets is not
+    in the property text: compared with the model only."""
     proto = case.get('inforce', case['proto'])
     kind = classify_member(proto, case['single'])
     if rec['exc']:
         return 'c02:unexpected-exception:' + rec['exc'], 'escaped'
     if kind[0] == 'invalid':
-        if rec['raised'] in (None, 'no-message') or rec['raised'][0] != 'E':
-            return 'c02:invalid-single-no-error', f'invalid request not answered by an error: {rec}'
         return None
     if rec['raised'] is not None:
         return 'c02:valid-request-rejected', f'{rec["raised"]}'
     if kind[0] == 'notif':
-        if rec['items'] != ['n'] or rec['reply'] is not None:
+        if rec['items'] != ['n'] or rec['reply'] is not None or rec.get('extra'):
             return 'c02:notification-answered', f'{rec}'
         return None
     if rec['items'] != ['r'] or rec['reply'] is None:
         return 'c02:request-not-answered', f'{rec}'
+    if rec.get('extra'):
+        return 'c02:reply-count', f'{1 + rec["extra"]} responses written for one request'
     rep = rec['reply']
     rid = kind[1]
     over = case['max'] > 0 and rec['len'] > case['max']
@@ -279,8 +348,14 @@ def single_oracle(case, rec):
     elif rep[0] == 'E':
         if not same_json(rep[1], rid):
             return 'c02:wrong-id', f'error under {rep[1]!r}, request id {rid!r}'
-        if not over:
-            return 'c02:replaced-though-within-limit', f'{rec["len"]} bytes, limit {case["max"]}'
+        if not over and not case.get('busy'):
+            code = rep[2] if len(rep) > 2 else '?'
+            if case['max'] == 0:
+                return ('c02:replaced-without-limit',
+                        f'the handler delivered its result but the response is an error (code '
+                        f'{code}) although max_response_size is 0')
+            return ('c02:replaced-though-within-limit',
+                    f'{rec["len"]} bytes, limit {case["max"]}, answered by an error (code {code})')
     else:
         return 'c02:malformed-entry', f'{rep}'
     return None
@@ -291,9 +366,8 @@ def model_line(case, rec):
     proto = case.get('inforce', case['proto'])
     if 'single' in case:
         kind = classify_member(proto, case['single'])
-        if kind[0] != 'req':
-            return None
-        return f'S {case["max"]} {rec["len"]} {id_token(kind[1])}'
+        tok = 'N' if kind[0] == 'notif' else f'{"R" if kind[0] == "req" else "X"}:{id_token(kind[1])}'
+        return f'S {case["max"]} {rec["len"]} {tok}'
     toks = []
     for p in case['members']:
         k = classify_member(proto, p)
@@ -307,6 +381,9 @@ def impl_text(case, rec):
     if rec.get('exc'):
         return '!' + rec['exc']
     if 'single' in case:
+        if rec['raised'] is not None:
+            r = rec['raised']
+            return 'E?' if r == 'no-message' else f'E@{id_token(r[1])}' if r[0] == 'E' else '?'
         rep = rec['reply']
         if rep is None:
             return 'none'
@@ -332,9 +409,10 @@ def unlisted_failure(ctx, res):
 _jr = None
 
 
-def _init(repo):
+def _init(repo, facts=None):
     global _jr
     _jr = fresh_import(repo, 'aiorpcx.jsonrpc')
+    set_wire(facts)
 
 
 def _prepare(case):
@@ -362,12 +440,12 @@ def _run_batch(cases):
 def run_impl(ctx, cases):
     n = len(cases)
     if n < 8000:
-        _init(ctx.repo)
+        _init(ctx.repo, ctx.facts)
         return _run_batch(cases)
     nproc = min(12, os.cpu_count() or 1)
     size = max(2000, n // (nproc * 4))
     jobs = [cases[i:i + size] for i in range(0, n, size)]
-    with Pool(nproc, initializer=_init, initargs=(ctx.repo,)) as pool:
+    with Pool(nproc, initializer=_init, initargs=(ctx.repo, ctx.facts)) as pool:
         parts = pool.map(_run_batch, jobs)
     return [r for p in parts for r in p]
 
@@ -445,9 +523,11 @@ def limits_for(jr, proto_name, members, order, errs, rich):
     for m in order:
         result, _ = result_for(jr, m, m in errs)
         lens.append(len(proto.response_message(result, members[m].get('id'))))
-    first = lens[0] + 2
-    total = sum(l + 2 for l in lens)
-    cands = [first, first - 1, total, total - 1] if rich else [first - 1, total - 1 if len(lens) > 1 else first]
+    inc = WIRE['inc']
+    first = lens[0] + inc
+    total = sum(l + inc for l in lens)
+    cands = [first, first - 1, total, total - 1, lens[0] - 1] if rich else \
+        [first - 1, total - 1 if len(lens) > 1 else first]
     seen = set()
     for c in cands:
         if c > 0 and c not in seen:
@@ -498,7 +578,12 @@ def single_cases(jr):
                     ln = 60
                 for mx in (0, ln, ln - 1, 1, ln + 1):
                     out.append({'proto': proto, 'max': mx, 'single': p, 'err': err})
-        out.append({'proto': proto, 'max': 0, 'single': {'jsonrpc': '2.0', 'method': 1, 'id': 4}, 'err': False})
+        # invalid single messages (what they get is compared with the model, not judged)
+        for bad in ({'jsonrpc': '2.0', 'method': 1, 'id': 4}, {'jsonrpc': '2.0', 'method': 'm', 'params': 'oops', 'id': 5},
+                    {'jsonrpc': '2.0', 'method': 'm', 'id': [1]}, {'jsonrpc': '2.0', 'method': None}, 5, 'x'):
+            if proto == 'auto' and not isinstance(bad, dict):
+                continue
+            out.append({'proto': proto, 'max': 0, 'single': bad, 'err': False})
     return out
 
 
@@ -558,7 +643,7 @@ RULE = ('case = (protocol, max_response_size, batch composition, completion orde
 def run(ctx):
     res = Results()
     rng = ctx.rng
-    _init(ctx.repo)
+    _init(ctx.repo, ctx.facts)
     jr = _jr
     cc = [parse_corpus_line(l) for l in corpus_lines(ctx.verif, 'C02')]
     evaluate(ctx, cc, res, 'corpus')
@@ -589,8 +674,9 @@ def run(ctx):
     for c in gen[:2]:
         res.sample({'case': c})
     res['scopes']['exhaustive_max_len'] = done
-    from harness import c02_session
+    from harness import c02_session, c02_backpressure
     c02_session.run(ctx, res)
+    c02_backpressure.run(ctx, res)
     return res.finish(RULE, exhaustive=not unlisted_failure(ctx, res))
 
 
@@ -601,6 +687,9 @@ def replay(ctx, case):
     if case.get('layer') == 'session':
         from harness import c02_session
         c02_session.replay(ctx, case, res)
+    elif case.get('layer') == 'bp':
+        from harness import c02_backpressure
+        c02_backpressure.replay(ctx, case, res)
     else:
         evaluate(ctx, [case], res, 'replay')
     res.sample(case)
